@@ -1,11 +1,15 @@
-(* Property C05 - statements only.  Each theorem is closed by [exact] of a lemma proved in the
-   C05/ files; Print Assumptions is evaluated by ./check on every run. *)
-From Coq Require Import List ZArith.
-From TskVerif Require Import Base.Common C05.Bytes.
+(* Property C05 - storage and interchange are lossless.  Statements only: each theorem is closed
+   by [exact] of a lemma proved in the C05/ files; Print Assumptions is evaluated by ./check on
+   every run.  Model: C05/Bytes.v (bytes, little-endian integers), C05/Kastore.v (the kastore
+   container, writer and reader), C05/TskFile.v (tskit's column schema layer). *)
+From Coq Require Import List ZArith Permutation Sorted.
+From TskVerif Require Import Base.Common Gen.Generated C05.Bytes C05.Kastore C05.KastoreProofs C05.TskFile
+  C05.TskProofs C05.StreamProofs C10.TruncProofs.
 Import ListNotations.
 Open Scope Z_scope.
 
-(* (a) little-endian integers of the three widths the container uses round-trip *)
+(* (a) little-endian integers of the three widths the container uses round-trip; any byte
+   string is the encoding of its value *)
 Theorem le16_roundtrip : forall v, 0 <= v < 65536 -> le_dec (le_enc 2 v) = v.
 Proof. exact Bytes.le16_roundtrip. Qed.
 Theorem le32_roundtrip : forall v, 0 <= v < 4294967296 -> le_dec (le_enc 4 v) = v.
@@ -14,3 +18,51 @@ Theorem le64_roundtrip : forall v, 0 <= v < two64 -> le_dec (le_enc 8 v) = v.
 Proof. exact Bytes.le64_roundtrip. Qed.
 Theorem le_bytes_roundtrip : forall l, bytes_ok l -> le_enc (length l) (le_dec l) = l.
 Proof. exact Bytes.le_enc_dec. Qed.
+
+(* (b) the container: reading what was written returns the items in key order, every key, type,
+   length and array byte, and leaves the rest of the stream untouched.  [item_ok] is what
+   kastore_put accepts (known type, non-empty key, array of len * size bytes); sizes below 2^64. *)
+Theorem kas_roundtrip : forall its rest,
+  Forall item_ok its -> zlen its < 4294967296 -> kas_size (sort_items its) < two64 ->
+  kas_decode (kas_encode its ++ rest) = Ok (sort_items its, rest).
+Proof. exact KastoreProofs.kas_roundtrip. Qed.
+
+(* ... for ANY sorting routine (libc qsort): a key-sorted arrangement of items with distinct
+   keys is unique, so the file and what is read back do not depend on the algorithm *)
+Theorem kas_roundtrip_any_sort : forall sorted its rest,
+  Forall item_ok its -> zlen its < 4294967296 -> kas_size sorted < two64 ->
+  NoDup (map ikey its) -> Permutation sorted its -> StronglySorted key_le sorted ->
+  sorted = sort_items its /\ kas_decode (kas_write sorted ++ rest) = Ok (sort_items its, rest).
+Proof. exact KastoreProofs.kas_roundtrip_any_sort. Qed.
+
+Theorem sort_items_sorted_permutation : forall its,
+  Permutation (sort_items its) its /\ StronglySorted key_le (sort_items its).
+Proof. exact (fun its => conj (sort_perm its) (sort_sorted its)). Qed.
+
+(* (c) offset columns: written as uint32 exactly when the last offset fits, as uint64 otherwise;
+   reading back (widening) returns the same offsets *)
+Theorem offsets_narrow_widen : forall offs,
+  Forall (fun o => 0 <= o <= last offs 0) offs -> last offs 0 < two64 ->
+  let ty := narrow_type offs in
+  (ty = kas_uint32 <-> last offs 0 <= uint32_max) /\ (ty = kas_uint64 <-> uint32_max < last offs 0) /\
+  dec_offsets (if ty =? kas_uint64 then 8 else 4) (enc_offsets ty offs) (length offs) = offs.
+Proof. exact TskProofs.offsets_narrow_widen. Qed.
+
+(* (d) table collection round trip, byte level only (see C05/StreamProofs.v for the full statement
+   and what is missing): every item dumped is read back exactly and the stream is left at the
+   end of the object *)
+Theorem tc_roundtrip_partial : forall tc rest,
+  enc_ok (tsk_dump tc) ->
+  kas_decode (tsk_dump_bytes tc ++ rest) = Ok (sort_items (tsk_dump tc), rest).
+Proof. exact StreamProofs.tc_roundtrip_partial. Qed.
+
+(* (e) several objects on one stream: each read consumes exactly one, then end-of-stream *)
+Theorem stream_multi : forall stores,
+  Forall enc_ok stores ->
+  read_all_stores (S (length stores)) (concat (map kas_encode stores)) = Ok (map sort_items stores).
+Proof. exact StreamProofs.stream_multi. Qed.
+
+(* ... and end-of-stream is reported for the empty stream only: it can never be confused with a
+   format error or with a successfully read object *)
+Theorem eof_iff_empty : forall read_all s, kas_open read_all s = Err E_EOF <-> s = [].
+Proof. exact TruncProofs.eof_iff_empty. Qed.
